@@ -17,6 +17,7 @@ enum Op {
     AnnounceRepeatLong,
     UpdateStream,
     UpdateStreamLong,
+    PtrTxtOnlyStream,
     HostileCorpus,
     Browse,
     StopBrowse,
@@ -28,7 +29,7 @@ enum Op {
     UnsolicitedOff,
     Idle10s,
 }
-const OPS: [Op; 19] = [
+const OPS: [Op; 20] = [
     Op::UnbrowsedTypeStream,
     Op::OrphanStream,
     Op::BrowsedStream,
@@ -38,6 +39,7 @@ const OPS: [Op; 19] = [
     Op::AnnounceRepeatLong,
     Op::UpdateStream,
     Op::UpdateStreamLong,
+    Op::PtrTxtOnlyStream,
     Op::HostileCorpus,
     Op::Browse,
     Op::StopBrowse,
@@ -74,6 +76,8 @@ fn run_case_lb(seq: &[Op], loopback: bool, trace: bool) -> CaseResult {
     let mut needed_instances: u64 = 0;
     let mut needed_while_resolving: u64 = 0;
     let mut stream_sizes: Vec<(Op, i64)> = vec![];
+    let mut browse_baseline: Option<HashMap<String, i64>> = None;
+    let mut orphan_growth: HashMap<String, i64> = HashMap::new();
     let mut trail = String::new();
     let metrics = |w: &mut World| -> HashMap<String, i64> { w.metrics(0).unwrap_or_default() };
     let g = |m: &HashMap<String, i64>, k: &str| m.get(k).copied().unwrap_or(0);
@@ -146,6 +150,16 @@ fn run_case_lb(seq: &[Op], loopback: bool, trace: bool) -> CaseResult {
                     needed_instances += 1;
                 }
             }
+            Op::PtrTxtOnlyStream => {
+                // instances of the browsed type whose SRV never arrives
+                for j in 0..20 {
+                    let i = Inst::simple(&format!("half{j}"), &format!("halfhost{j}"), [10, 0, 0, 56]);
+                    w.deliver(0, IF0, PEER0, build(&response(vec![i.ptr(120), i.txt(120)])));
+                }
+                if browsing {
+                    needed_instances += 20;
+                }
+            }
             Op::HostileCorpus => {
                 for (j, p) in crate::c01::corpus().into_iter().enumerate() {
                     w.deliver(0, IF0, PEER0, p.clone());
@@ -162,6 +176,10 @@ fn run_case_lb(seq: &[Op], loopback: bool, trace: bool) -> CaseResult {
                 }
             }
             Op::Browse => {
+                if !browsing {
+                    browse_baseline = Some(before.clone());
+                    orphan_growth.clear();
+                }
                 let rx = w.ds[0].h.browse("_t._tcp.local.").unwrap();
                 w.add_browse(0, rx);
                 w.poke(0);
@@ -170,6 +188,25 @@ fn run_case_lb(seq: &[Op], loopback: bool, trace: bool) -> CaseResult {
             Op::StopBrowse => {
                 w.ds[0].h.stop_browse("_t._tcp.local.").unwrap();
                 w.poke(0);
+                // (4) what was cached for the stopped browse is forgotten at once: nothing beyond what
+                // was there before the browse and the records without PTR that arrived meanwhile
+                // (those are the known findings above, judged there)
+                if browsing && !resolving && !ever_unsolicited {
+                    if let Some(base) = &browse_baseline {
+                        let now_m = metrics(&mut w);
+                        res.count("stops_checked", 1);
+                        // context: the PTR records left are exactly the subtype PTRs of the instances
+                        let ex = |c: &str| g(&now_m, c) - g(base, c) - orphan_growth.get(c).copied().unwrap_or(0);
+                        let subtype_ptrs = ex("cached-ptr") > 0 && ex("cached-ptr") == ex("cached-subtype");
+                        for c in ["cached-ptr", "cached-srv", "cached-txt", "cached-subtype"] {
+                            let allowed = g(base, c) + orphan_growth.get(c).copied().unwrap_or(0);
+                            if g(&now_m, c) > allowed {
+                                let tag = if subtype_ptrs && (c == "cached-ptr" || c == "cached-subtype") { "|subtype-ptr-records" } else { "" };
+                                res.viols.push(viol(format!("C20|records-of-the-stopped-browse-kept|{c}{tag}"), format!("right after stop_browse (step {k}): {c} = {}, before the browse {} (+{} without PTR meanwhile)", g(&now_m, c), g(base, c), orphan_growth.get(c).copied().unwrap_or(0))));
+                            }
+                        }
+                    }
+                }
                 browsing = false;
             }
             Op::Resolve => {
@@ -207,10 +244,15 @@ fn run_case_lb(seq: &[Op], loopback: bool, trace: bool) -> CaseResult {
         let after = metrics(&mut w);
         res.transitions += 1;
         trail.push_str(&format!("{op:?}:{:?};", CACHED.iter().map(|c| g(&after, c)).chain([g(&after, "timer")]).collect::<Vec<_>>()));
-        let traffic = matches!(op, Op::UnbrowsedTypeStream | Op::OrphanStream | Op::BrowsedStream | Op::BrowsedStreamLong | Op::AnnounceGoodbyeRepeat | Op::AnnounceRepeat | Op::AnnounceRepeatLong | Op::UpdateStream | Op::UpdateStreamLong | Op::HostileCorpus);
+        let traffic = matches!(op, Op::UnbrowsedTypeStream | Op::OrphanStream | Op::BrowsedStream | Op::BrowsedStreamLong | Op::AnnounceGoodbyeRepeat | Op::AnnounceRepeat | Op::AnnounceRepeatLong | Op::UpdateStream | Op::UpdateStreamLong | Op::PtrTxtOnlyStream | Op::HostileCorpus);
         if traffic {
             res.count("traffic_events_checked", 1);
             let grew: Vec<(String, i64)> = CACHED.iter().map(|c| (c.to_string(), g(&after, c) - g(&before, c))).filter(|x| x.1 > 0).collect();
+            if browsing && matches!(op, Op::OrphanStream | Op::HostileCorpus) {
+                for (c, d) in &grew {
+                    *orphan_growth.entry(c.clone()).or_insert(0) += d;
+                }
+            }
             // (1) nothing is kept when nothing asked for it
             if !browsing && !resolving && !unsolicited && !grew.is_empty() {
                 // the corpus packets without a PTR are the same situation as the orphan stream
@@ -325,12 +367,17 @@ pub fn check(tier: &str) -> i32 {
         }
         (0..len).map(|_| { let o = OPS[(idx % m) as usize]; idx /= m; o }).collect()
     };
+    // quick tier: sequences of full depth only if they begin by opening something (a browse, a
+    // resolver, a registration, accept_unsolicited); shorter ones all.  Thorough: everything.
+    let starters = [Op::Browse, Op::Resolve, Op::Register, Op::UnsolicitedOn];
+    let full_len = depth;
+    let keep = move |sq: &[Op]| -> bool { thorough || sq.len() < full_len || starters.contains(&sq[0]) };
     let part = FnPart {
         name: "traffic-and-search-sequences".into(),
-        rule: format!("every sequence of <= {depth} events over 10 traffic generators (streams of 50-100 distinct names for an unbrowsed type / without PTR / for the browsed type with subtypes, 100x announce+goodbye, 100x and 200x re-announcement, 20 and 40 updates of one TXT record 150 ms apart, hostile corpus) and 9 API calls; metrics compared before/after each traffic event, after all TTLs, and one hour later"),
+        rule: format!("every sequence of <= {depth} events (quick tier: those of full length only when they begin with browse / resolve_hostname / register / accept_unsolicited; the others are skipped and count as trivial) over 11 traffic generators (streams of 50-100 distinct names for an unbrowsed type / without PTR / for the browsed type with subtypes, 100x announce+goodbye, 100x and 200x re-announcement, 20 and 40 updates of one TXT record 150 ms apart, 20 instances with PTR and TXT but no SRV, hostile corpus) and 9 API calls; metrics compared before/after each traffic event, after all TTLs, and one hour later"),
         n: nseq,
         describe: Box::new(move |i| format!("{:?}", seq_of(i))),
-        run: Box::new(move |i, tr| run_case(&seq_of(i), tr)),
+        run: Box::new(move |i, tr| { let sq = seq_of(i); if keep(&sq) { run_case(&sq, tr) } else { CaseResult::default() } }),
     };
     rep.run_part(&part, Duration::from_secs(if thorough { 3000 } else { 50 }));
     // the same with the daemon hearing its own multicasts, one level less deep
